@@ -10,9 +10,10 @@ ENTRY = "socialchoicekit.deterministic_matching.GaleShapley.scf"
 @guard
 def impl_batch(case):
     out = []
+    ctx = gslib.new_ctx(len(case["insts"]))
     for inst in case["insts"]:
         try:
-            out.append({"pairs": gslib.call_gs(inst, case["oriented"], case["zero_indexed"])})
+            out.append({"pairs": gslib.call_gs(inst, case["oriented"], case["zero_indexed"], ctx=ctx)})
         except Exception as e:  # noqa
             out.append({"exc": type(e).__name__, "msg": str(e)[:200]})
     return {"results": out}
@@ -35,6 +36,11 @@ def gen_random(R, count, nmax):
                 I["R"][R.rng.randrange(n)] = [None] * m
         if gslib.constructible(I):
             insts.append(I)
+    for t in range(max(1, count // 400)):      # large markets: a hospital with >= 128 seats and more applicants than that
+        n = R.rng.randint(135, 170)
+        I = gslib.rand_instance(R.rng, n, 2, 0.0, 0.0)
+        I["c"] = [R.rng.randint(128, 140), R.rng.randint(1, 5)]
+        insts.append(I)
     return insts
 
 
